@@ -293,7 +293,7 @@ end
 /-! ### `__str__` -/
 
 def atomClause (name : String) (a : Generic.Atom) : String :=
-  name ++ " " ++ a.op.str ++ " \"" ++ a.value ++ "\""
+  name ++ " " ++ a.op.str ++ " " ++ quoteOf a.value ++ a.value ++ quoteOf a.value
 
 def Leaf.toStr : Leaf → PyM String
   | .single s => .ok (leafText s.name s.op s.value s.swapped)
